@@ -27,7 +27,7 @@ ASSUMPTIONS = [
 COMPONENTS = {"real": ["TradingEnv.step", "Broker.rebalance/net_liquidation_value", "rewards.*", "Transmitter", "Exchange"],
               "harness": ["shock generator", "independent Fraction ledger"], "stub": []}
 PROBE_FLOORS = {"ruin_on_arrival": 21, "ruin_post_trade": 100, "ruin_exactly_zero": 20, "ruin_on_first_step": 36,
-                "ruin_by_own_costs": 50, "steps_attempted_after_end": 300, "recovery_after_ruin": 50, "reset_after_ruin_works": 20, "ruin_inside_spread_band": 12, "end_of_episode_handler_failed": 10, "ruin_episode_replayed": 120, "insolvent_only_after_interest_is_charged": 25, "ruin_by_a_quote_of_exactly_zero": 18}
+                "ruin_by_own_costs": 50, "steps_attempted_after_end": 300, "recovery_after_ruin": 50, "reset_after_ruin_works": 20, "ruin_inside_spread_band": 12, "end_of_episode_handler_failed": 10, "ruin_episode_replayed": 120, "insolvent_only_after_interest_is_charged": 25, "quote_pushed_between_steps": 15, "ruin_by_a_quote_of_exactly_zero": 18}
 
 
 def generate(rng, i):
@@ -43,6 +43,7 @@ def generate(rng, i):
     if exact and phase == "own_costs":
         phase = "nonlatent"
     interest_arm = (not exact) and phase == "nonlatent" and rng.random() < 0.12
+    notify_arm = (not exact) and (not interest_arm) and phase == "nonlatent" and lat_us == 0 and rng.random() < 0.12
     lat = timedelta(microseconds=lat_us)
     kind = rng.choice(["ETF", "spot", "margined", "future"])
     if exact:
@@ -64,7 +65,7 @@ def generate(rng, i):
     spread = 0.0 if exact else rng.choice([0, 0, 0.001])
     # 'band' arm: a wide spread and a shock that lands between the two solvency boundaries (the account is worth
     # <= 0 at the liquidation side of the quote but > 0 at the other side), for either sign of the position
-    band = (not exact) and phase != "own_costs" and rng.random() < 0.15
+    band = (not exact) and phase != "own_costs" and rng.random() < 0.15 and not (phase == "nonlatent" and lat_us == 0 and False)
     if band:
         spread = rng.choice([0.02, 0.05])
     if exact:
@@ -96,9 +97,9 @@ def generate(rng, i):
     def add(t, c, mid):
         events.append({"t": core.iso(t), "type": "nbbo", "c": c, "bid": mid * (1 - spread / 2), "ask": mid * (1 + spread / 2), "id": len(events)})
 
-    recovery = rng.random() < 0.4 and phase != "own_costs" and not interest_arm
+    recovery = rng.random() < 0.4 and phase != "own_costs" and not interest_arm and not notify_arm
     for k, g in enumerate(grid):
-        shocked = (k > kshock) or (k == kshock and phase == "nonlatent")
+        shocked = ((k > kshock) or (k == kshock and phase == "nonlatent")) and not notify_arm
         if phase == "latent":
             shocked = k >= kshock
         if phase == "own_costs":
@@ -129,7 +130,7 @@ def generate(rng, i):
         "ts_type": "datetime", "state": {"type": "rec", "feature": rng.random() < 0.3, "k": 2},
     }
     wipeout = False
-    if (not exact) and (not band) and (not interest_arm) and (not recovery) and phase == "nonlatent" and w > 1 and rng.random() < 0.25:
+    if (not exact) and (not band) and (not interest_arm) and (not notify_arm) and (not recovery) and phase == "nonlatent" and w > 1 and rng.random() < 0.25:
         # the asset is wiped out: after the shock it is quoted at exactly 0.0 (a legal quote), and the quotes are
         # handed over as a table of prices (Transmitter.add_prices)
         wipeout = True
@@ -155,7 +156,13 @@ def generate(rng, i):
         elif liquidate_when_broke and k >= kshock - 1:
             a = [0.0] * len(a)            # the decision arriving at a broke account asks to liquidate everything
         script.append({"op": "step", "env": 0, "action": a})
-    first_steps = [dict(op) for op in script if op["op"] == "step"]
+    if notify_arm:
+        # the adverse quote does not come from the transmitter: it is pushed into the environment between two steps,
+        # stamped with the same timestamp as the last quote seen (a one-second feed)
+        pos = [j for j, op in enumerate(script) if op["op"] == "step"][min(kshock, nsteps - 1)]
+        pf_ = p * f
+        script.insert(pos, {"op": "notify_quote", "env": 0, "c": 0, "bid": pf_ * (1 - spread / 2), "ask": pf_ * (1 + spread / 2)})
+    first_steps = [dict(op) for op in script if op["op"] in ("step", "notify_quote")]
     script.append({"op": "reset", "env": 0, "fold": None, "np_seed": rng.randrange(2 ** 31)})
     replay = rng.random() < 0.3
     if replay:
@@ -165,7 +172,7 @@ def generate(rng, i):
         for k in range(rng.randint(1, 2)):
             script.append({"op": "step", "env": 0, "action": [0.0] * (2 if two else 1)})
     return {"kind": "epi", "envs": [env], "clock0": "1999-01-01T00:00:00", "script": script, "prng": rng.randrange(2 ** 31),
-            "meta": {"phase": phase, "w": w, "f": f, "kshock": kshock, "exact": exact, "recovery": recovery, "band": band, "replay": replay, "interest_arm": interest_arm, "wipeout": wipeout}}
+            "meta": {"phase": phase, "w": w, "f": f, "kshock": kshock, "exact": exact, "recovery": recovery, "band": band, "replay": replay, "interest_arm": interest_arm, "wipeout": wipeout, "notify_arm": notify_arm}}
 
 
 def execute(scenario):
@@ -205,6 +212,14 @@ def execute(scenario):
             for sym, b in epicheck.expected_books(dmodel, h, steps_model, k_, at_step_end=at_end).items():
                 if sym != "__rate__":
                     out[sym] = b
+            if not at_end:
+                # quotes pushed with notify() since the previous step ended are the latest ones at this execution
+                st_ = ep["steps"][k_]
+                prev_end = ep["steps"][k_ - 1]["end_seq"] if k_ > 0 else ep["reset"]["end_seq"]
+                for nr in recs:
+                    if nr["kind"] == "notify" and prev_end < nr["seq"] < st_["seq"]:
+                        out[nr["sym"]] = (nr["bid"], nr["ask"])
+                        probe("quote_pushed_between_steps")
             return out
 
         for st in ep["steps"]:
@@ -290,6 +305,16 @@ def execute(scenario):
                     probe("ruin_on_first_step")
                 if broke_end and not isinstance(nlv_end, str) and nlv_end == 0:
                     probe("ruin_exactly_zero")
+                if st.get("exc") == "InjectedCrash":
+                    # the step got as far as the end-of-episode notification and the injected failure of its handler
+                    # escaped: the episode must be closed (the notification is only sent for an ended episode)
+                    probe("end_of_episode_handler_failed")
+                    if not st.get("env_done"):
+                        violate("episode_left_open", "step {}: the end-of-episode notification was sent at the ruin ({}) but the episode is not marked as ended".format(k, phase),
+                                op=k, kind="handler_failed_at_ruin")
+                        break
+                    ended, ended_how = True, "ruin_handler_failed"
+                    continue
                 # (d) the ruin step reports done to the caller rather than failing
                 if st.get("exc") is not None:
                     chain = st.get("chain") or []
